@@ -68,10 +68,8 @@ def images(draw, allow_noise, dtype):
 
 @st.composite
 def cases(draw, tight_margins=True):
-    # explicit parity: size = 2*m + p
-    h = 2 * draw(st.integers(4, 19)) + draw(st.integers(0, 1))
-    w = draw(st.just(h) | st.builds(lambda m, p: min(2 * m + p, 40), st.integers(4, 20), st.integers(0, 1)))
-    h = min(h, 40)
+    h = draw(_side())
+    w = draw(st.just(h) | _side())
     est = draw(st.sampled_from(["numpy", "numpy", "torch", "torch_fourier"]))
     # input dtype: None = floating point (`dtype`), else integer-valued counts stored in an integer
     # dtype (all estimator/input combinations accept those on the pinned tree; float16/bfloat16
@@ -92,13 +90,8 @@ def cases(draw, tight_margins=True):
     if in_dtype:
         case["in_dtype"] = in_dtype
         case["img"]["offset"] = 0.0  # the pedestal of unsigned data comes from R.INT_DTYPES
-    if sk == "zero":
-        case["shift"] = [0, 0]
-    else:
-        # one axis may stay integer in a "real" case; at least one is fractional
-        ky = sk if sk == "int" else draw(st.sampled_from(["real", "real", "int"]))
-        kx = sk if (sk == "int" or ky == "int") else draw(st.sampled_from(["real", "real", "int"]))
-        case["shift"] = [draw(_coord(h, ky)), draw(_coord(w, kx))]
+    case["shift"] = [0, 0] if sk == "zero" else draw(_shift(h, w, sk))
+    case.update(draw(_route(est)))
     if est == "numpy":
         case["fft_input"] = draw(st.booleans())
         case["ret_img"] = draw(st.booleans())
@@ -115,8 +108,55 @@ def cases(draw, tight_margins=True):
     nh = draw(st.sampled_from([0, 0, 0, 1, 2]))
     if nh:
         kind = "fft" if (est == "numpy" and case["fft_input"]) or est == "torch_fourier" else "real"
-        case["history"] = [draw(_step(kind, dtype, sk, tight_margins, in_dtype)) for _ in range(nh)]
+        case["history"] = [draw(_step(kind, dtype, sk, tight_margins, in_dtype, h, w)) for _ in range(nh)]
     return case
+
+
+@st.composite
+def _side(draw):
+    """Image side: 8..40 with explicit parity (2*m + p) in ~5 of 6 draws, 41..128 otherwise (sides
+    above 64 px are needed for shifts whose centred length reaches the 32 px the drift module
+    uses as its own search radius)."""
+    if draw(st.integers(0, 5)) == 0:
+        return draw(st.integers(41, 128) | st.sampled_from([64, 65, 96, 100, 128]))
+    return min(2 * draw(st.integers(4, 20)) + draw(st.integers(0, 1)), 40)
+
+
+@st.composite
+def _shift(draw, h, w, sk):
+    # one axis may stay integer in a "real" case; at least one is fractional
+    ky = sk if sk == "int" else draw(st.sampled_from(["real", "real", "int"]))
+    kx = sk if (sk == "int" or ky == "int") else draw(st.sampled_from(["real", "real", "int"]))
+    return [draw(_coord(h, ky)), draw(_coord(w, kx))]
+
+
+# every module path through which the package itself reaches the estimators (plain re-exports and
+# the two direct-ptychography helpers that wrap the torch estimator in a loop)
+ROUTES = {
+    "numpy": {
+        "core": ("quantem.core.utils.imaging_utils", "cross_correlation_shift"),
+        "drift": ("quantem.imaging.drift", "cross_correlation_shift"),
+        "tomography_base": ("quantem.tomography.tomography_base", "cross_correlation_shift"),
+        "tomography_utils": ("quantem.tomography.utils", "cross_correlation_shift"),
+    },
+    "torch": {
+        "core": ("quantem.core.utils.imaging_utils", "cross_correlation_shift_torch"),
+        "direct_ptycho_utils": ("quantem.diffractive_imaging.direct_ptycho_utils", "cross_correlation_shift_torch"),
+        "dp_reference_shifts": ("quantem.diffractive_imaging.direct_ptycho_utils", "_compute_reference_shifts"),
+        "dp_pairwise_shifts": ("quantem.diffractive_imaging.direct_ptycho_utils", "_compute_pairwise_shifts"),
+    },
+    "torch_fourier": {"core": ("quantem.core.utils.imaging_utils", "align_images_fourier_torch")},
+}
+# documented defaults of upsample_factor per route (used when a call leaves arguments out)
+DEFAULT_UP = {"numpy": 1, "torch": 2, "dp_reference_shifts": 4, "dp_pairwise_shifts": 4}
+
+
+@st.composite
+def _route(draw, est):
+    """How the estimator is reached: `via` = module path; `explicit` = False leaves every argument
+    whose value equals the documented default of the core function out of the call (as the
+    package's own callers do: tomography passes neither max_shift nor fft_input)."""
+    return {"via": draw(st.sampled_from(sorted(ROUTES[est]))), "explicit": draw(st.booleans())}
 
 
 def _ups(est, in_dtype):
@@ -135,8 +175,10 @@ def _margins(sk, tight_margins):
 
 
 @st.composite
-def _step(draw, kind, dtype, sk, tight_margins, in_dtype=None):
-    """Settings of one further call on the already-built inputs of input kind `kind`."""
+def _step(draw, kind, dtype, sk, tight_margins, in_dtype=None, h=None, w=None):
+    """Settings of one further call on the already-built inputs of input kind `kind`.  With
+    `refresh`, the SAME array objects are first overwritten in place with a new image pair (new
+    image, new shift of the same kind): the next estimates must be those of the new content."""
     t_est = "torch" if kind == "real" else "torch_fourier"
     # the numpy estimator is only judged on float64 data (its 1e-6 exactness clause)
     est = t_est if dtype == "float32" else draw(st.sampled_from(["numpy", "numpy", t_est]))
@@ -145,6 +187,13 @@ def _step(draw, kind, dtype, sk, tight_margins, in_dtype=None):
         "up": draw(_ups(est, in_dtype)),
         "swap": draw(st.booleans()),
     }
+    step.update(draw(_route(est)))
+    if h is not None and draw(st.booleans()):
+        sk2 = "real" if sk == "real" else "int"
+        img = draw(images(allow_noise=(sk2 != "real"), dtype=dtype))
+        if in_dtype:
+            img["offset"] = 0.0
+        step["refresh"] = {"img": img, "shift": draw(_shift(h, w, sk2))}
     if est == "numpy":
         step["fft_input"] = kind == "fft"
         step["ret_img"] = draw(st.booleans())
@@ -198,14 +247,33 @@ def _fail(msg, case):
 
 class _Pool:
     """The two images as the array objects handed to the estimators, built once and then reused by
-    every call that draws on this pool.  float64: the torch tensors are views of the numpy arrays
-    (torch.from_numpy), so numpy and torch calls see the very same memory; float32: torch-only
-    tensors, made once.  The harness keeps its own pristine copies and never reads these back."""
+    every call that draws on this pool.  Both images live in one (2, h, w) stack (the layout of a
+    virtual-image stack); float64 / integer dtypes: the torch tensors are views of the numpy
+    arrays (torch.from_numpy), so numpy and torch calls see the very same memory; float32:
+    torch-only tensors, made once.  `refresh` overwrites all of them IN PLACE with a new pair.
+    The harness keeps its own pristine copies and never reads these back."""
 
     def __init__(self, ref, im, dtype):
         self.dtype = dtype
-        self.a, self.b = ref.copy(), im.copy()  # float64, or the case's integer dtype
-        self._F = self._t = self._G = None
+        self.stack = np.stack([ref, im])  # float64, or the case's integer dtype
+        self.a, self.b = self.stack[0], self.stack[1]
+        self._F = self._ts = self._G = None
+
+    def refresh(self, ref, im):
+        import torch
+
+        self.a[...] = ref
+        self.b[...] = im
+        if self._F is not None:
+            self._F[0][...] = np.fft.fft2(self.a)
+            self._F[1][...] = np.fft.fft2(self.b)
+        if self.dtype == "float32":
+            if self._ts is not None:
+                self._ts.copy_(torch.tensor(self.stack, dtype=torch.float32))
+            if self._G is not None:
+                ts = self.stack_t()
+                self._G[0].copy_(torch.fft.fft2(ts[0]))
+                self._G[1].copy_(torch.fft.fft2(ts[1]))
 
     def real_np(self):
         return self.a, self.b
@@ -215,15 +283,19 @@ class _Pool:
             self._F = (np.fft.fft2(self.a), np.fft.fft2(self.b))
         return self._F
 
-    def real_t(self):
+    def stack_t(self):
         import torch
 
-        if self._t is None:
+        if self._ts is None:
             if self.dtype == "float32":
-                self._t = (torch.tensor(self.a, dtype=torch.float32), torch.tensor(self.b, dtype=torch.float32))
+                self._ts = torch.tensor(self.stack, dtype=torch.float32)
             else:
-                self._t = (torch.from_numpy(self.a), torch.from_numpy(self.b))
-        return self._t
+                self._ts = torch.from_numpy(self.stack)
+        return self._ts
+
+    def real_t(self):
+        ts = self.stack_t()
+        return ts[0], ts[1]
 
     def fft_t(self):
         import torch
@@ -238,33 +310,61 @@ class _Pool:
         return self._G
 
 
-def _estimate(ctx, case, cfg, iu, pool, swap, what, want_img):
+def _resolve(est, via):
+    import importlib
+
+    mod, name = ROUTES[est][via]
+    return getattr(importlib.import_module(mod), name)
+
+
+def _estimate(ctx, case, cfg, iu, pool, swap, what, want_img, shift):
     """Run the estimator configured by `cfg` on the pool's arrays, (reference, moving) = (ref, im)
-    or (im, ref) when `swap`.  Returns (shift, aligned)."""
+    or (im, ref) when `swap`, through the module path cfg["via"].  `shift` is the translation the
+    pool currently holds (only used to place max_shift).  Returns (shift estimate, aligned)."""
+    import torch
+
     est, up = cfg["est"], int(cfg["up"])
+    via = cfg.get("via", "core")
+    explicit = bool(cfg.get("explicit", True))
     aligned = None
 
     def order(pair):
         return (pair[1], pair[0]) if swap else pair
 
     with ctx.sut(case, what):
+        fn = _resolve(est, via)
         if est == "numpy":
             ms = None
             if cfg.get("max_shift_margin") is not None:
-                d = (R.wrap_centered(-float(case["shift"][0]), case["h"]), R.wrap_centered(-float(case["shift"][1]), case["w"]))
+                d = (R.wrap_centered(-float(shift[0]), case["h"]), R.wrap_centered(-float(shift[1]), case["w"]))
                 ms = math.hypot(*d) + float(cfg["max_shift_margin"])
             A, B = order(pool.fft_np() if cfg["fft_input"] else pool.real_np())
-            kw = dict(upsample_factor=up, max_shift=ms, fft_input=cfg["fft_input"])
+            kw = dict(upsample_factor=up, max_shift=ms, fft_input=bool(cfg["fft_input"]))
             if want_img:
-                r, aligned = iu.cross_correlation_shift(A, B, return_shifted_image=True, fft_output=cfg["fft_output"], **kw)
-            else:
-                r = iu.cross_correlation_shift(A, B, **kw)
+                kw.update(return_shifted_image=True, fft_output=bool(cfg["fft_output"]))
+            if not explicit:
+                # leave out what equals the documented default of the core function
+                dflt = dict(upsample_factor=DEFAULT_UP["numpy"], max_shift=None, fft_input=False, fft_output=False)
+                kw = {k: v for k, v in kw.items() if not (k in dflt and v == dflt[k] and type(v) is type(dflt[k]))}
+            out = fn(A, B, **kw)
+            r, aligned = out if want_img else (out, None)
         elif est == "torch":
             ta, tb = order(pool.real_t())
-            r = iu.cross_correlation_shift_torch(ta, tb, upsample_factor=up).detach().cpu().numpy()
+            if via == "dp_reference_shifts":
+                ts = pool.stack_t()
+                kw = {} if (not explicit and up == DEFAULT_UP[via]) else {"upsample_factor": up}
+                r = fn(ts[0:1] if swap else ts[1:2], ta, **kw)[0]
+            elif via == "dp_pairwise_shifts":
+                kw = {} if (not explicit and up == DEFAULT_UP[via]) else {"upsample_factor": up}
+                res = fn(pool.stack_t(), torch.tensor([[1, 0]] if swap else [[0, 1]]), **kw)
+                r = res[0][2]
+            else:
+                kw = {} if (not explicit and up == DEFAULT_UP["torch"]) else {"upsample_factor": up}
+                r = fn(ta, tb, **kw)
+            r = r.detach().cpu().numpy()
         else:
             G1, G2 = order(pool.fft_t())
-            r = iu.align_images_fourier_torch(G1, G2, up).detach().cpu().numpy()
+            r = fn(G1, G2, up).detach().cpu().numpy()
     r = np.asarray(r, dtype=np.float64).ravel()
     if r.shape != (2,) or not np.all(np.isfinite(r)):
         raise core.Violation("%s: result is not a finite pair: %r" % (what, r.tolist()), case)
@@ -295,10 +395,13 @@ def _judge(ctx, case, cfg, iu, pool, T, k, inner_swap):
     # handed to cross_correlation_shift_torch (torch.fft promotes them to float32)
     f32 = case["dtype"] == "float32" or (est == "torch" and bool(case.get("in_dtype")))
     tcfg = dict(cfg, dtype="float32" if f32 else "float64")
-    tag = "" if k == 0 else "call #%d on the same input arrays (%s, up=%d%s): " % (k + 1, est, up, ", roles swapped" if swap else "")
+    tag = "" if k == 0 else "call #%d on the same input arrays%s (%s, up=%d%s): " % (
+        k + 1, T.get("note", ""), est, up, ", roles swapped" if swap else "")
+    if cfg.get("via", "core") != "core":
+        tag += "via %s.%s: " % ROUTES[est][cfg["via"]]
 
     want_img = est == "numpy" and bool(cfg.get("ret_img"))
-    r, aligned = _estimate(ctx, case, cfg, iu, pool, swap, tag + "estimate(ref, im)", want_img)
+    r, aligned = _estimate(ctx, case, cfg, iu, pool, swap, tag + "estimate(ref, im)", want_img, T["s"])
     # + the displacement of the correlation peak caused by rounding the two images to integers
     #   (0 unless qsub; computed by the harness from the pair itself, see R.true_peak)
     tol = shift_tol(tcfg, integer) + T["qdelta"]
@@ -365,20 +468,21 @@ def _judge(ctx, case, cfg, iu, pool, T, k, inner_swap):
     if inner_swap is not None and not identical:
         if inner_swap is pool:
             tag = tag or "second call on the same input arrays: "
-        r2, _ = _estimate(ctx, case, cfg, iu, inner_swap, not swap, tag + "estimate(im, ref)", False)
+        r2, _ = _estimate(ctx, case, cfg, iu, inner_swap, not swap, tag + "estimate(im, ref)", False, T["s"])
         sy, sx = R.circ_err(r2[0], -r[0], h), R.circ_err(r2[1], -r[1], w)
         _ratio(ctx, "swap", max(sy, sx), 2 * tol)
         if max(sy, sx) > 2 * tol:
             _fail(tag + "swapping the images does not negate the shift: %r vs %r" % (r.tolist(), r2.tolist()), case)
 
 
-def check(ctx, case):
-    iu = _q()
-    h, w, up, est = int(case["h"]), int(case["w"]), int(case["up"]), case["est"]
-    s = (case["shift"][0], case["shift"][1])
+def _truth(case, spec, s):
+    """Ground truth for one image pair: builds ref and im = T_s(ref) (in the case's input dtype),
+    decides the sub-pixel domain guards, and returns (T, arr_ref, arr_im) with arr_* the arrays to
+    hand to the estimators."""
+    h, w = int(case["h"]), int(case["w"])
+    s = (s[0], s[1])
     integer = _is_int(s[0]) and _is_int(s[1])
     identical = float(s[0]) == 0.0 and float(s[1]) == 0.0
-    spec = case["img"]
     if spec["type"] == "noise" and not integer:
         raise core.HarnessError("white-noise images are only defined for integer shifts")
     ref = R.make_image(spec, h, w)
@@ -403,8 +507,6 @@ def check(ctx, case):
             qsub = True
             refX, imX = A * ref + P, A * im + P
             ref, im = arr_ref.astype(np.float64), arr_im.astype(np.float64)
-    beyond = (float(s[0]) % h) > h / 2.0 or (float(s[1]) % w) > w / 2.0
-    history = list(case.get("history") or [])
 
     # sub-pixel clause only: is this (image, shift) inside the domain of two-stage registration?
     # (both guards are invariant under exchanging the roles of the two images: the correlation is
@@ -422,6 +524,23 @@ def check(ctx, case):
             else:
                 qdelta = max(abs(dq[0] + float(s[0])), abs(dq[1] + float(s[1])))
                 guard_ok = guard_ok and qdelta <= GUARD_QUANT
+    T = dict(h=h, w=w, spec=spec, ref=ref, im=im, s=(float(s[0]), float(s[1])) if not integer else (s[0], s[1]),
+             integer=integer, identical=identical, guard_ok=guard_ok, grad=R.grad_bounds(refX),
+             refX=refX, imX=imX, qsub=qsub, qdelta=float(qdelta))
+    return T, arr_ref, arr_im
+
+
+def check(ctx, case):
+    iu = _q()
+    h, w, up, est = int(case["h"]), int(case["w"]), int(case["up"]), case["est"]
+    s = (case["shift"][0], case["shift"][1])
+    spec = case["img"]
+    in_dtype = case.get("in_dtype")
+    T, arr_ref, arr_im = _truth(case, spec, s)
+    integer, identical, guard_ok = T["integer"], T["identical"], T["guard_ok"]
+    beyond = (float(s[0]) % h) > h / 2.0 or (float(s[1]) % w) > w / 2.0
+    history = list(case.get("history") or [])
+    d0 = (R.wrap_centered(-float(s[0]), h), R.wrap_centered(-float(s[1]), w))
 
     classes = [
         "est:" + est,
@@ -431,11 +550,18 @@ def check(ctx, case):
         "in_dtype:" + (in_dtype or case["dtype"]),
         "shift:" + ("identical" if identical else "integer" if integer else "subpixel"),
         "parity:%s%s" % ("eo"[h % 2], "eo"[w % 2]),
+        "size:" + ("8-40" if max(h, w) <= 40 else "41-128"),
+        "via:%s:%s" % (est, case.get("via", "core")),
+        "args:" + ("explicit" if case.get("explicit", True) else "defaults_omitted"),
     ]
     if h != w:
         classes.append("nonsquare")
     if beyond:
         classes.append("beyond_half")
+    if math.hypot(*d0) >= 32.0:
+        classes.append("shift_radius>=32px")
+        if est == "numpy" and case.get("max_shift_margin") is None and case.get("via", "core") != "core":
+            classes.append("shift_radius>=32px:no_max_shift:via_reexport")
     if not integer:
         classes.append("subpixel_guard:" + ("ok" if guard_ok else "outside_domain"))
     if est == "numpy":
@@ -447,20 +573,31 @@ def check(ctx, case):
     if history:
         classes.append("reused_inputs")
         classes.append("reused_inputs:calls=%d" % (1 + len(history)))
+        prev = ("torch", "b" if (not identical and guard_ok) else "a") if est == "torch" else None
         for st_ in history:
             classes.append("reused_by:" + st_["est"] + ("+swapped" if st_.get("swap") else ""))
+            if st_.get("via", "core") != "core":
+                classes.append("via:%s:%s" % (st_["est"], st_["via"]))
+            if st_.get("refresh"):
+                classes.append("refreshed_in_place")
+                # same estimator, same array in the reference role, content replaced in between
+                if st_["est"] == "torch" and prev == ("torch", "b" if st_.get("swap") else "a"):
+                    classes.append("refreshed_in_place:torch_same_reference_as_previous_call")
+            prev = (st_["est"], "b" if st_.get("swap") else "a")
     nontrivial = ((not integer) and up >= 2 and guard_ok) or beyond or (h != w)
     ctx.record(case, bool(nontrivial), classes)
 
-    T = dict(h=h, w=w, spec=spec, ref=ref, im=im, s=(float(s[0]), float(s[1])) if not integer else (s[0], s[1]),
-             integer=integer, identical=identical, guard_ok=guard_ok, grad=R.grad_bounds(refX),
-             refX=refX, imX=imX, qsub=qsub, qdelta=float(qdelta))
-    cfg0 = {k: case[k] for k in ("est", "up", "fft_input", "ret_img", "fft_output", "max_shift_margin") if k in case}
+    cfg0 = {k: case[k] for k in ("est", "up", "fft_input", "ret_img", "fft_output", "max_shift_margin", "via", "explicit") if k in case}
     pool = _Pool(arr_ref, arr_im, case["dtype"])
     # without a history every call gets freshly built arrays (the swapped-argument call included);
     # with one, all calls of the case, the swapped-argument call too, share one set of arrays
     _judge(ctx, case, cfg0, iu, pool, T, 0, pool if history else _Pool(arr_ref, arr_im, case["dtype"]))
     for k, cfg in enumerate(history, start=1):
+        if cfg.get("refresh"):
+            # new content written into the SAME array objects
+            T, arr_ref, arr_im = _truth(case, cfg["refresh"]["img"], cfg["refresh"]["shift"])
+            T["note"] = " after their content was replaced in place"
+            pool.refresh(arr_ref, arr_im)
         _judge(ctx, case, cfg, iu, pool, T, k, None)
 
 
